@@ -157,7 +157,11 @@ def plan(prop, tier):
               B("V", 10, sim=100 if q else 2000, depth=10, units="sweep", configs=cfg_two_methods)]
     elif prop == "C05":
         mc = [("Y", 3, "valid", "single")] if q else [("Y", 4, "valid", "single")]
-        bs = [B("Y", 3 if q else 4, configs=cfg_countries, sample=400 if q else 6000), B("C", 3, configs=cfg_countries, sample=300 if q else 3000)]
+        bs = [B("Y", 3 if q else 4, configs=cfg_countries, sample=400 if q else 6000), B("C", 3, configs=cfg_countries, sample=300 if q else 3000),
+              # holding periods one second around 1, 365 and 366 days, three UTC offsets: every acquisition / disposal pair, and longer histories
+              B("P", 2, configs=cfg_countries, sample=600 if q else None), B("P", 4, sim=150 if q else 3000, depth=4, configs=cfg_countries)]
+        if not q:
+            bs.append(B("P", 3, configs=cfg_countries, sample=20000))
     elif prop == "C06":
         mc = [("Y", 3, "valid", "single")] if q else [("Y", 4, "valid", "single")]
         bs = [B("Y", 3 if q else 4, runs=runs_todates, configs=cfg_one_method, sample=1500 if q else 20000),
